@@ -249,6 +249,24 @@ func (r *rng) genTyped(bt structform.BaseType, o genOpts) scalar {
 	return r.genNum(btKind[bt], o)
 }
 
+// hugeElem: small elements for the very long typed arrays of the big<fmt> kinds
+func hugeElem(bt structform.BaseType, i int) scalar {
+	switch bt {
+	case structform.BoolType:
+		return scalar{kind: evBool, b: i%3 == 0}
+	case structform.StringType:
+		return scalar{kind: evStr, s: []byte{byte('a' + i%26)}}
+	}
+	nk := btKind[bt]
+	switch {
+	case isSigned(nk):
+		return scI(nk, int64(i%200)-100)
+	case nk == kFloat32 || nk == kFloat64:
+		return r0Float(nk, i)
+	}
+	return scU(nk, uint64(i%250))
+}
+
 func (r *rng) genCount() int {
 	if r.budget <= 0 {
 		return r.n(2)
@@ -265,7 +283,19 @@ func (r *rng) genCount() int {
 	}
 }
 
+// collidePairs: pairs of distinct keys with equal hashes under the usual non-cryptographic hash
+// functions (FNV-1a/64, FNV-1a/32, FNV-1/32, CRC-32, Java's 31-multiplier, djb2): an index that keeps
+// hashes instead of keys confuses them
+var collidePairs = [][2]string{
+	{"7mohtcOFVz", "c1E51sSEyx"}, {"8yn0iYCKYHlIj4-BwPqk", "GReLUrM4wMqfg9yzV3KQ"},
+	{"m0oe1l", "5aum35"}, {"d3b6os", "p8bl5t"}, {"rdeoil", "34r5ov"}, {"4ecu33", "c2g1vv"},
+	{"k5y5tn", "wfjhaz"}, {"vy5xb2", "j6iyv2"}, {"Aa", "BB"}, {"Ez", "FY"},
+}
+
 func (r *rng) genKey(o genOpts) []byte {
+	if r.chance(1, 10) {
+		return []byte(collidePairs[r.n(3)*r.n(4)%len(collidePairs)][r.n(2)])
+	}
 	switch r.n(6) {
 	case 0:
 		return []byte{}
@@ -429,4 +459,12 @@ func (r *rng) genStream(o genOpts) []event {
 		return r.genDeep(o)
 	}
 	return r.genValue(nil, 0, o)
+}
+
+func r0Float(nk int, i int) scalar {
+	f := float64(i%64) / 4
+	if nk == kFloat32 {
+		return scalar{kind: evNum, nk: nk, u: uint64(math.Float32bits(float32(f)))}
+	}
+	return scalar{kind: evNum, nk: nk, u: math.Float64bits(f)}
 }
